@@ -9,4 +9,3 @@ VERIF_REPO=/tmp/sv-$i/repo flock /verif/.build/sweep.lock ./check $p | grep -v K
 grep -h "^# class" replays/$p-quick-1.$h.case 2>/dev/null | cut -c1-240 | head -3
 grep -v "^warning\|^Hint\|apply\]\|^Note\|^$\|^⚠\|^  \|^trace" replays/$p-quick-1.$h.broken.txt 2>/dev/null | head -12
 rm -rf /tmp/sv-$i
-cd /verif && git checkout -- lean/IpcHub/Gen 2>/dev/null
